@@ -240,6 +240,49 @@ class Rewriter:
         self.t, n = re.subn(r"(?<![A-Za-z0-9_:])(?:super::){1,%d}" % depth, "", self.t)
         self.note("R3m", n)
 
+    # R30 ------------------------------------------------------------
+    def r30_wildcard_closure_params(self):
+        """`|_| e`, `|_, x| e`, `|_: T| e` -> the wildcard parameter gets a fresh name (`vx_u<k>`).  Verus rejects `_` as a
+        closure parameter; a closure parameter is always moved into the call and dropped at its end whether it is
+        bound to `_` or to an unused name (unlike `let _ = ..`), so the two closures are the same program.  Only a
+        parameter list that directly follows `(`, `,`, `=` or `move` is touched (an or-pattern `A | _ | B` follows an
+        identifier or `)`), and only parameters that are exactly `_` / `_: T`."""
+        n = 0
+        out, last = [], 0
+        m = mask(self.t)
+        for mm in re.finditer(r"(?:(?<=[(,=])\s*|\bmove\s+)\|([^|{};]*)\|(?!\|)", m):
+            a, b = mm.start(1), mm.end(1)
+            params = self.t[a:b]
+            if "_" not in params or "=>" in params:
+                continue
+            parts, depth, cur = [], 0, ""
+            for ch in params:
+                if ch in "(<[":
+                    depth += 1
+                elif ch in ")>]":
+                    depth -= 1
+                if ch == "," and depth == 0:
+                    parts.append(cur)
+                    cur = ""
+                else:
+                    cur += ch
+            parts.append(cur)
+            changed = False
+            for i, part in enumerate(parts):
+                mm2 = re.fullmatch(r"(\s*)_(\s*(?::.*)?)", part, re.S)
+                if mm2:
+                    parts[i] = "%svx_u%d%s" % (mm2.group(1), n, mm2.group(2))
+                    n += 1
+                    changed = True
+            if changed:
+                out.append(self.t[last:a])
+                out.append(",".join(parts))
+                last = b
+        if n:
+            out.append(self.t[last:])
+            self.t = "".join(out)
+        self.note("R30", n)
+
     # R4 -------------------------------------------------------------
     def r4_bool_or_assign(self):
         n = 0
@@ -463,6 +506,7 @@ class Rewriter:
         self.r1_tracing()
         self.r3_visibility()
         self.r4_bool_or_assign()
+        self.r30_wildcard_closure_params()
         self.r5_pin_erasure()
         self.r6_struct_projection(None)
         self.r12_phantom_fn()
